@@ -77,6 +77,13 @@ def descs(draw, odd_units=True, text_curves=True, nan=True):
         for cv in desc["curves"]:
             if cv[0].strip() and draw(st.integers(0, 3)) == 0:
                 cv[1] = draw(odd)
+    if draw(st.booleans()):
+        # samples with more digits than any format prints: what is recovered then depends on the numeric format only
+        for cv in desc["curves"][1:]:
+            for i in range(nrows):
+                if draw(st.booleans()):
+                    cv[4][i] = draw(st.sampled_from(["123.456789", "0.123456", "-45.678901", "2650.55555", "0.001234", "99999.99999",
+                                                     "-0.5", "7.25", "1234567.891"]))
     if nan:
         for cv in desc["curves"][1:]:
             for i in range(nrows):
